@@ -302,6 +302,11 @@ def register_all(M):
         I.model_state['unordered'] = bool(a[0])
         return UNIT()
 
+    @reg('harness::vrt::order_deviations')
+    def vrt_order_deviations(I, ext, a):
+        I.model_state['order_budget'] = int(a[0])
+        return UNIT()
+
     @reg('harness::vrt::assume')
     def assume(I, ext, a):
         I.ctx.assume(a[0])
@@ -1419,10 +1424,19 @@ def register_batch2(M):
             return list(range(n))
         # bounded exploration of iteration orders: any element first, the others in insertion order or
         # reversed (all n! orders for n <= 3, 2n of them beyond)
+        budget = I.model_state.get('order_budget')
+        if budget is not None and budget <= 0:
+            return list(range(n))
         rest = list(range(n))
-        first = rest.pop(I.ctx.nondet_choice('hash-order-first', n))
-        if len(rest) > 1 and I.ctx.nondet_choice('hash-order-rest-reversed', 2) == 1:
-            rest.reverse()
+        c1 = I.ctx.nondet_choice('hash-order-first', n)
+        first = rest.pop(c1)
+        c2 = 0
+        if len(rest) > 1:
+            c2 = I.ctx.nondet_choice('hash-order-rest-reversed', 2)
+            if c2 == 1:
+                rest.reverse()
+        if budget is not None and (c1 or c2):
+            I.model_state['order_budget'] = budget - 1
         return [first] + rest
     M.iteration_order = iteration_order
 
